@@ -48,3 +48,12 @@
 (define-fun cmp3eq ((a Bytes) (alo Int) (ahi Int) (b Bytes) (blo Int) (bhi Int)) Bool
   (let ((fa (+ alo (fcomma a alo ahi))) (ca (+ alo (lcomma a alo ahi))) (fb (+ blo (fcomma b blo bhi))) (cb (+ blo (lcomma b blo bhi))))
    (and (lexeq a alo fa b blo fb) (lexeq a (+ fa 1) ca b (+ fb 1) cb) (lexeq a (+ ca 1) ahi b (+ cb 1) bhi))))
+
+;;; block bigendian
+; big-endian value of the first 2/4/8 bytes of a byte range (hi is not used; callers guarantee the length)
+(define-fun be16 ((a Bytes) (lo Int) (hi Int)) Int (+ (* 256 (select a lo)) (select a (+ lo 1))))
+(define-fun be32 ((a Bytes) (lo Int) (hi Int)) Int
+  (+ (* 16777216 (select a lo)) (* 65536 (select a (+ lo 1))) (* 256 (select a (+ lo 2))) (select a (+ lo 3))))
+(define-fun be64 ((a Bytes) (lo Int) (hi Int)) Int
+  (+ (* 72057594037927936 (select a lo)) (* 281474976710656 (select a (+ lo 1))) (* 1099511627776 (select a (+ lo 2)))
+     (* 4294967296 (select a (+ lo 3))) (* 16777216 (select a (+ lo 4))) (* 65536 (select a (+ lo 5))) (* 256 (select a (+ lo 6))) (select a (+ lo 7))))
